@@ -60,6 +60,7 @@ DEFAULT = dict(
   act_ball=True,  # allow joint transmissions on ball/free joints
   big_tree=0,  # force one chain of this many hinge dofs (inertia layout boundaries)
   p_adhesion=0.0,  # geom adhesion (MuJoCo 3.13 passive contact adhesion); 0 draws no random numbers
+  p_fluid_ellipsoid=0.0,  # fluidshape="ellipsoid" on body geoms; 0 draws no random numbers
 )
 
 
@@ -157,6 +158,9 @@ class Gen:
     elif rng.random() < 0.3:
       attrs["mass"] = _f(rng.uniform(0.05, 3.0))
     self._contact_attrs(attrs)
+    if self.P.get("p_fluid_ellipsoid") and body != "world" and rng.random() < self.P["p_fluid_ellipsoid"]:
+      attrs["fluidshape"] = "ellipsoid"
+      self.feat.add("fluid_ellipsoid")
     self.geoms.append((name, t, body))
     self.feat.add("geom:" + t)
     return "<geom " + " ".join(f'{k}="{v}"' for k, v in attrs.items()) + "/>"
